@@ -524,7 +524,7 @@ func genCase(r *hlib.Rng) *Case {
 	}
 	// adversarial message parameters
 	if !c.Inbound {
-		switch r.Pick(86, 3, 3, 2, 2, 2, 2) {
+		switch r.Pick(92, 2, 1, 1, 1, 1, 2) {
 		case 1:
 			c.Gas = 21000 + uint64(r.Intn(40000)) // around the intrinsic gas
 		case 2:
